@@ -12,6 +12,7 @@
 #include "cmd_util.h"
 #include "cmd_listing.h"
 #include "cmd_macro.h"
+#include "cmd_link.h"
 
 static void register_all()
 {
@@ -27,4 +28,5 @@ static void register_all()
   register_util();
   register_listing();
   register_macro();
+  register_link();
 }
